@@ -62,6 +62,8 @@ def case_conservation(case):
     nz = len(z)
     # every node of the column, requested top-down on odd lattice points (the surface node is then the LAST slot)
     levels = list(range(nz)) if (nxe + nye + len(case["prof"])) % 2 == 0 else list(range(nz - 1, -1, -1))
+    if (nxe + 2 * nye) % 3 == 0:
+        levels = [nz // 2, nz - 1] + levels  # two nodes requested twice (the first and a later slot hold the same node)
     modes = (nxe, nye) if case["modes"] == "full" else tuple(case["modes"])
     prec = case["prec"]
     tol = 1e-9 if prec == "double" else 2e-5
@@ -83,8 +85,8 @@ def case_conservation(case):
         bg = BGS[k % len(BGS)]
         _, c, f = S(q, z, prof, dom, levels, modes=modes, halo=0.0, srf_bg_conc=bg, precision=prec)
         qm = q.mean()
-        fm = f.reshape(nz, -1).mean(axis=1)
-        cm = c.reshape(nz, -1).mean(axis=1)
+        fm = f.reshape(len(levels), -1).mean(axis=1)
+        cm = c.reshape(len(levels), -1).mean(axis=1)
         scale = max(abs(qm), np.abs(q).max() / q.size)
         if prec == "single":  # storage rounding is relative to the FIELD maximum (cf. C12), not to its mean
             scale = max(scale, float(np.abs(f).max()))
@@ -345,6 +347,8 @@ def run(ctx):
     cc = list(cons_cases(ctx.tier))
     callforms.run_solver_forms(ctx)
     errorpaths.run(ctx, case_conservation, [c for c in cons_cases(ctx.tier) if c['prof'] == 'most_aniso'][:2])
+    errorpaths.run_threaded(ctx, case_conservation, [c for c in cons_cases(ctx.tier) if c['prof'] == 'most_aniso'][:2], threads=(2, 3, 4, 8))
+    errorpaths.run_threaded(ctx, case_fine_column, [c for c in fine_cases(ctx.tier) if c['prof'] == 'most_u' and c['bg'] == 400.0], threads=(2, 4, 8), sub="numerical threads > 1, column of thousands of layers")
     ctx.run_cases(case_conservation, cc, sub="conservation", chunksize=1)
     ctx.run_cases(case_unitmass, cc, sub="unit-mass", chunksize=1)
     ctx.run_cases(case_halo, halo_cases(ctx.tier), sub="halo-padding", chunksize=1)
